@@ -1598,3 +1598,71 @@ def rx_13(ctx, rep):
                    % (label, w), witness=w)
     rep.stat('rx13_patterns', len(seen_sources))
     rep.minimum('RX-13', 12)
+
+
+# ---------------------------------------------------------------------------------------------------------------
+# RX-14  no exponentially ambiguous pattern: matching terminates in practice
+def _lexical_patterns(ctx, versions=((3, 6), (3, 12)), extra_modules=('parso/utils.py',)):
+    """{(file, role name): Rx} - the fields of the TokenCollection per version, and the module-level compiled patterns."""
+    TOKP = 'parso/python/tokenize.py'
+    PREFIXP = 'parso/python/prefix.py'
+    from ..fold import Obj
+    pats = {}
+    for version in versions:
+        env = ctx.token_collection(version)
+        res = env.get('$result')
+        if not isinstance(res, Obj):
+            raise AnalysisError('the token collection does not fold')
+        fields = list(res.args) + list(res.kwargs.values())
+        for i, v in enumerate(fields):
+            if isinstance(v, Rx):
+                pats.setdefault((TOKP, 'token collection field %d' % i), v)
+            elif isinstance(v, dict):
+                for kk, vv in sorted(v.items(), key=lambda kv: str(kv[0])):
+                    if isinstance(vv, Rx):
+                        pats.setdefault((TOKP, 'token collection field %d[%r]' % (i, kk)), vv)
+    for rel in (TOKP, PREFIXP) + tuple(extra_modules):
+        folder = ctx.folder(rel)
+        mod = ctx.prog.mod(rel)
+        for name in sorted(mod.globals):
+            try:
+                v = folder.get(name)
+            except AnalysisError:
+                continue
+            if isinstance(v, Rx):
+                pats.setdefault((rel, name), v)
+    return pats
+
+
+def rx_14(ctx, rep):
+    rep.rule('RX-14', 'no compiled pattern of the tokenizer / prefix splitter is exponentially ambiguous: there is no state of '
+                      'its automaton with two different runs back to itself on one word (Weber-Seidl criterion on the product '
+                      'automaton). With such a loop the backtracking matcher tries 2^n runs on a text of n repetitions '
+                      'before it gives up on an alternative - parsing does not terminate in practice')
+    pats = _lexical_patterns(ctx)
+    seen = {}
+    n = 0
+    for (rel, name), v in sorted(pats.items()):
+        key = (v.source, v.flags)
+        if key in seen:
+            continue
+        seen[key] = name
+        try:
+            A = rx.compile_nfa(v.source, v.flags)
+        except AnalysisError as e:
+            rep.skip('RX-14', rel, '<module>', 'pattern %s' % name, 'outside the regular fragment of the engine (%s)' % e)
+            continue
+        try:
+            w = rx.exponential_ambiguity(A)
+        except AnalysisError as e:
+            rep.skip('RX-14', rel, '<module>', 'pattern %s' % name, str(e))
+            continue
+        n += 1
+        rep.ob('RX-14', rel, '<module>', 'pattern %s' % name, w is None,
+               'the pattern can match the repeated piece %r in more than one way inside one loop: a text with n repetitions of it '
+               'followed by something that makes the match fail costs 2^n steps' % (w,), witness=w)
+    # the engine itself is exercised on every run: a known exponentially ambiguous pattern must be recognised
+    if rx.exponential_ambiguity(rx.compile_nfa(r'(?:_?[0-9]+)*')) is None or rx.exponential_ambiguity(rx.compile_nfa(r'(?:_?[0-9])*')) is not None:
+        raise AnalysisError('RX-14: the ambiguity engine fails its built-in examples')
+    rep.stat('rx14_patterns', n)
+    rep.minimum('RX-14', 6)
